@@ -274,7 +274,7 @@ PROPS = {
             "netsim engine: real nodes (real node.rs wiring) on the in-memory simnet transport under tokio's paused virtual clock; harness proxies model links (latency >= 5 ms, cuts hang connections, no loss on healthy links)",
         ],
         "assumptions": ["convergence 'once reconnected' is a liveness statement: explored by simulation, not proved"],
-        "explanation": "Proved for every state/input: a sync request from a member is answered with exactly the block stored under the digest (and stored blocks have the digest they are filed under); a block with a missing parent is parked, the parent requested from its author once, retried by broadcast; parked blocks resume only after the parent is stored; blocks enter the store only after their parents (oldest first). Explored: netsim isolates one real node for a random interval while the others commit (with/without view changes, slow first sync target) and requires its commit log to reach and equal the others'; the cons engine compares the single-node park/request/resume behaviour with the model. The engine syncretry runs the real Synchronizer with the DEFAULT retry delay at its real cadence (5 s ticks; the synchronizers read a tokio-driven clock in verification builds, hook H4): request to the author once, no retry before the delay, re-broadcast to all at the first tick past it and at every later one, resume exactly once when the parent is stored.",
+        "explanation": "Proved for every state/input: a sync request from a member is answered with exactly the block stored under the digest (and stored blocks have the digest they are filed under); a block with a missing parent is parked, the parent requested from its author once, retried by broadcast; parked blocks resume only after the parent is stored; blocks enter the store only after their parents (oldest first). Explored: netsim isolates one real node for a random interval while the others commit (with/without view changes, slow first sync target) and requires its commit log to reach and equal the others'; the cons engine compares the single-node park/request/resume behaviour with the model. The engine syncretry runs the real Synchronizer with the DEFAULT retry delay at its real cadence (5 s ticks; the synchronizers read a tokio-driven clock in verification builds, hook H4): request to the author once, no retry before the delay, re-broadcast to all at the first tick past it and at every later one, resume exactly once when the parent is stored. The Synchronizer task itself is modelled with its timestamps (Model/Synchronizer.lean; its timer rule is the generated guard syncRetryDue, regenerated from consensus/src/synchronizer.rs on every run) and proved: first request to the author once (T1), the timer re-broadcasts exactly the overdue requests (T2), an unanswered request is re-broadcast at every tick past ts+delay whatever else happens (T3), resume exactly on the parent's arrival, each child once, no request left (T4); the engine syncretry replays every step of every case on that model (hsmodel `sy` commands) and compares the outputs step by step.",
     },
     "C13": {
         "lean_modules": ['HotstuffModel.Properties.C13'],
